@@ -461,3 +461,41 @@ func (e *Env) EnumOfString(rel, typ string) (types.Type, map[string]string) {
 	}
 	return t.Type(), out
 }
+
+// RetVals returns the value(s) a Return yields for result i, looking through
+// defer-spilled result cells: the store into the cell in the return's own block
+// when there is one, otherwise every store into the cell.
+func RetVals(rt *ssa.Return, i int) []ssa.Value {
+	v := rt.Results[i]
+	u, ok := v.(*ssa.UnOp)
+	if !ok || u.Op != token.MUL {
+		return []ssa.Value{v}
+	}
+	al, ok := u.X.(*ssa.Alloc)
+	if !ok {
+		return []ssa.Value{v}
+	}
+	var last ssa.Value
+	for _, in := range rt.Block().Instrs {
+		if st, ok := in.(*ssa.Store); ok && st.Addr == ssa.Value(al) {
+			last = st.Val
+		}
+	}
+	if last != nil {
+		return []ssa.Value{last}
+	}
+	// walk up single-predecessor chains
+	b := rt.Block()
+	for len(b.Preds) == 1 {
+		b = b.Preds[0]
+		for _, in := range b.Instrs {
+			if st, ok := in.(*ssa.Store); ok && st.Addr == ssa.Value(al) {
+				last = st.Val
+			}
+		}
+		if last != nil {
+			return []ssa.Value{last}
+		}
+	}
+	return ir.StoresTo(al)
+}
